@@ -643,3 +643,8 @@ def run(chk):
     from . import c17
     chk.guard("R09.9", "provider-sizes", c17.check_satisfier_as_provider, chk, F, "R09.9")
     chk.guard("R09.10", "tr-weight", weights.check_tr_weight, chk, F)
+    # "the sizes a spending plan announces": witness_size / scriptsig_size against what Plan::satisfy builds (rules shared
+    # with C17)
+    from . import assembly
+    chk.guard("R09.11", "plan-sizes", assembly.check_plan_sizes, chk, F, "R09.11")
+    chk.guard("R09.12", "scriptsig-size", c17.check_scriptsig_size, chk, F, "R09.12")
